@@ -260,7 +260,7 @@ func (e *env) refP(o obs) (bool, string) {
 	if adv == nil {
 		return false, "CUPHOwnerPubKey missing"
 	}
-	advKey, err := rv.ParsePublicKey(adv)
+	advKey, err := rv.ParsePublicKeyAnyType(adv)
 	if err != nil || !rv.KeysEqual(advKey, owner) {
 		return false, "advertised owner key is not the chain's last key"
 	}
